@@ -113,6 +113,22 @@ def execute(machine, **kw):
     return _slim(run_history(machine, **kw))
 
 
+def _run_seq(machine, prelude, population, records):
+    """Earlier histories of the same process (by seed or as explicit records), then the history under test."""
+    for p in prelude or []:
+        if "seed" in p:
+            run_history(machine, seed=p["seed"])
+        else:
+            run_history(machine, population=p["population"], records=p["ops"])
+    return _slim(run_history(machine, population=population, records=records))
+
+
+def execute_isolated(machine, prelude, population, records):
+    """Always in a freshly forked child of the (pristine) calling process: what a trial leaves behind in the
+    interpreter (caches, class state) can reach neither the next trial nor the verdict of the replay."""
+    return _forked(lambda: _run_seq(machine, prelude, population, records))
+
+
 def make_job_fn(machine):
     def job_fn(job):
         out = {"histories": 0, "steps": 0, "ops": Counter(), "refused": Counter(), "restarts": Counter(),
@@ -136,7 +152,8 @@ def make_job_fn(machine):
                 out["samples"].append({"seed": seed, "population": res["population"], "ops": res["records"][:8]})
             if res["violation"] is not None:
                 v = res["violation"]
-                v.update({"population": res["population"], "records": res["records"], "step": res["step"], "index": idx, "run_seed": seed})
+                v.update({"population": res["population"], "records": res["records"], "step": res["step"], "index": idx, "run_seed": seed,
+                          "job_first": job["first"], "job_seed": job["seed"]})
                 out["violations"].append(v)
                 if len(out["violations"]) >= 5:
                     break
@@ -148,29 +165,47 @@ def make_job_fn(machine):
 
 
 def minimise(machine, v, budget=150):
+    """Returns (records, prelude, ok).  Every trial runs in a freshly forked child.  A violation that does not
+    reproduce on its own depends on what earlier histories left behind in the process: the earlier histories of
+    its job become an explicit, minimised prelude of the replay."""
     key = report.key_str(v["key"])
     pop = v["population"]
 
-    def fails(records):
+    def fails(records, prelude=()):
         try:
-            res = execute(machine, population=pop, records=records)
+            res = execute_isolated(machine, list(prelude), pop, records)
         except Exception:
             return False
         return res["violation"] is not None and report.key_str(res["violation"]["key"]) == key
 
     recs = v["records"]
+    prelude = []
     if not fails(recs):
-        return recs, False
-    recs = report.ddmin(recs, fails, budget=budget)
+        if getattr(machine, "ISOLATE", "none") == "history" or "job_first" not in v:
+            return recs, [], False
+        seeds = [{"seed": run_seed(v["job_seed"], machine.PROP + "/history", i)} for i in range(v["job_first"], v["index"])]
+        if not seeds or not fails(recs, seeds):
+            return recs, [], False
+        seeds = report.ddmin(seeds, lambda ps: fails(recs, ps), budget=80)
+        for p in seeds:
+            r = _forked(lambda p=p: _slim(run_history(machine, seed=p["seed"])))
+            prelude.append({"population": r["population"], "ops": r["records"]})
+        if not fails(recs, prelude):
+            return recs, [], False
+        # shorten each prelude history as well
+        for i in range(len(prelude)):
+            ops = report.ddmin(prelude[i]["ops"], lambda o, i=i: fails(recs, prelude[:i] + [{"population": prelude[i]["population"], "ops": o}] + prelude[i + 1:]), budget=60)
+            prelude[i] = {"population": prelude[i]["population"], "ops": ops}
+    recs = report.ddmin(recs, lambda r: fails(r, prelude), budget=budget)
     # argument simplification hook
     if hasattr(machine, "simplify"):
         for i in range(len(recs)):
             for cand in machine.simplify(recs[i]):
                 trial = recs[:i] + [cand] + recs[i + 1:]
-                if fails(trial):
+                if fails(trial, prelude):
                     recs = trial
                     break
-    return recs, True
+    return recs, prelude, True
 
 
 def run_check(machine, tier, replay=None):
@@ -236,11 +271,15 @@ def run_check(machine, tier, replay=None):
         if n >= 6:
             print(f"(further violation classes suppressed: {len(new_by_key) - n})")
             break
-        v = min(vs, key=lambda x: (len(x["records"]), x["index"]))
-        recs, ok = minimise(machine, v)
+        # up to four candidates per class: the first whose minimised form reproduces is reported
+        for v in sorted(vs, key=lambda x: (len(x["records"]), x["index"]))[:4]:
+            recs, prelude, ok = minimise(machine, v)
+            if ok:
+                break
         payload = {
             "property": prop, "clause": v["clause"], "key": v["key"], "engine": "histsim", "verif_seed": seed,
             "run_seed": v["run_seed"], "minimised": ok, "population": v["population"], "ops": recs,
+            "prelude": prelude,  # earlier histories in the same process (empty unless the violation depends on them)
             "original_length": len(v["records"]), "step": len(recs) - 1, "detail": v["detail"],
             "expected": v.get("expected"), "observed": v.get("observed"), "occurrences_in_batch": len(vs),
         }
@@ -250,6 +289,8 @@ def run_check(machine, tier, replay=None):
             print(f"VIOLATION property={prop} replay={path}")
             print(f"  clause={v['clause']} key={ks}")
             print(f"  {v['detail'][:400]}")
+            if prelude:
+                print(f"  needs {len(prelude)} earlier histor{'y' if len(prelude) == 1 else 'ies'} in the same process: {json.dumps(prelude, default=str)[:400]}")
             print(f"  minimised history ({len(recs)} of {len(v['records'])} steps): {json.dumps(recs, default=str)[:600]}")
             exit_code = 1
         else:
@@ -293,7 +334,10 @@ def run_replay(machine, path):
     prop = machine.PROP
     with open(path) as fh:
         rp = json.load(fh)
-    res = execute(machine, population=rp["population"], records=rp["ops"])
+    if rp.get("prelude"):
+        res = execute_isolated(machine, rp["prelude"], rp["population"], rp["ops"])
+    else:
+        res = execute(machine, population=rp["population"], records=rp["ops"])
     key = report.key_str(rp["key"])
     v = res["violation"]
     if v is not None and report.key_str(v["key"]) == key:
